@@ -15,7 +15,8 @@ LA_SYMS = {
     "La": ("list", ["r.a"]), "Lb": ("list", ["r.b"]), "Lab": ("list", ["r.a", "r.b"]),
     "RX": ("regex", r"r\.c.*"), "WL": ("with_layer",),
 }
-EXTRA = {"LC": ("layer", "C"), "Sx": ("str", "r.ab"), "Le": ("list", []), "Laa": ("list", ["r.a", "r.a"]), "Sc": ("str", "b")}
+EXTRA = {"LC": ("layer", "C"), "Sx": ("str", "r.ab"), "Le": ("list", []), "Laa": ("list", ["r.a", "r.a"]), "Sc": ("str", "b"),
+         "PK": ("peek",)}      # observation of the architecture in the middle of its definition (never rejected, never changes anything)
 ALL = {**LA_SYMS, **EXTRA}
 
 
@@ -25,7 +26,7 @@ def la_spec(hist):
     for i, s in enumerate(hist):
         c = ALL[s]
         pending = [x for x in arch if not x[1]]
-        if c[0] == "with_layer":
+        if c[0] in ("with_layer", "peek"):
             continue
         if c[0] == "layer":
             if pending or any(x[0] == c[1] for x in arch):
@@ -48,7 +49,7 @@ def la_spec(hist):
 def _job(hists):
     enc = rules.Enc()
     lenc = layers.LEnc(enc)
-    wire = [15, [[lenc.la_call(ALL[s]) for s in h] for h in hists]]
+    wire = [15, [[lenc.la_call(ALL[s]) for s in h if s != "PK"] for h in hists]]     # the model has no observation call: it sees the history without them
     res = common.model_run([wire])[0]
     viol, disag, stats = [], [], {}
     nontriv = 0
@@ -70,7 +71,8 @@ def _job(hists):
         if [(a, list(b)) for a, b in listing] != [(a, list(b)) for a, b in sarch]:
             viol.append((case, f"LayeredArchitecture history {list(h)}: accepted definition lists {listing}, supplied {sarch}", {"kind": "la_listing"}))
             continue
-        if mk != k or [(a, list(b)) for a, b in march] != [(a, list(b)) for a, b in listing]:
+        k_model = len([s for s in h[:k] if s != "PK"])
+        if mk != k_model or [(a, list(b)) for a, b in march] != [(a, list(b)) for a, b in listing]:
             disag.append((case, f"model and implementation differ on LayeredArchitecture history {list(h)}"))
         if k == len(h) and len(listing) >= 1:
             nontriv += 1
@@ -88,6 +90,11 @@ def run(ctx: Ctx):
     for _ in range(20000 if ctx.quick else 200000):
         k = ctx.rng.randint(6, 10)
         hists.append(tuple(ctx.rng.choice(allsyms) for _ in range(k)))
+    for base in (["LA", "LB"], ["LA", "Sa", "LB", "Sb"], ["LA", "La", "LB", "Lb"], ["LA", "RX", "LB", "Sa"], ["LA", "Sa", "LB", "Sa"], ["LA", "LA"]):
+        for i in range(len(base) + 1):
+            hists.append(tuple(base[:i] + ["PK"] + base[i:]))
+            for j in range(i, len(base) + 1):
+                hists.append(tuple(base[:i] + ["PK"] + base[i:j] + ["PK"] + base[j:]))
     chunk = 4000
     jobs = [hists[i:i + chunk] for i in range(0, len(hists), chunk)]
     with Pool(NCPU) as pool:
@@ -103,7 +110,7 @@ def run(ctx: Ctx):
     ctx.exhaustive = True
     ctx.stat("la_histories", len(hists))
     ctx.rule = (f"LayeredArchitecture: all call sequences of length <= {maxlen} over 9 symbols (two layer names, two module names as str / list / two-element list, a regex, with_layer), "
-                "exhaustive, plus random longer ones over 14 symbols (third layer, name containing another name's characters, empty list, duplicate inside one list); "
+                "exhaustive, plus random longer ones over 15 symbols (an observation of the half-defined architecture - a LayerRule based on it, layer_mapping and str read - inserted anywhere, third layer, name containing another name's characters, empty list, duplicate inside one list); "
                 "per history: index of the first rejected call, its error family, and str(architecture) parsed back, compared with the documented rules and with the model; "
                 "LayerRule: all chains up to length 4 over 11 symbols + random and mutated chains (architecture first, exactly one subject layer); "
                 "non-trivial = fully accepted histories defining at least one layer")
